@@ -45,6 +45,8 @@ def _fill():
             ('P', 'text', None, -2, None, None),
             ('P', 'text', None, 'default', '', None),          # invalid although falsy
             ('P', 'text', None, -1, 'dos', 'text/plain'),
+            ('P', 'text', 'utf 8', 'default', None, None),
+            ('P', 'text', '1252', 0, None, None),
         ])
     INVALID['M'] = ([
             ('M', {}, None, 'default'),
@@ -53,6 +55,7 @@ def _fill():
             ('M', {'k': 1}, None, 'yaml'),
             ('M', {'k': 1}, 'no-such-codec', 'default'),
             ('M', {'k': 1}, 'enc\xe9', 'default'),
+            ('M', {'k': 1}, 'latin 1', 'default'),
         ])
     INVALID['D'] = ([
             ('D', 'text', None, None, None),
@@ -63,9 +66,13 @@ def _fill():
             ('D', b'x', '', None, None),
             ('D', b'x', None, 'no-such-codec', None),
             ('D', b'x', None, '\xe9', None),
+            ('D', b'x', None, '850', None),
         ])
     for kind in 'CF':
-        INVALID[kind] = [(kind, '\xe9'), (kind, 'utf-8€')]
+        # names Python's codec registry accepts but a header cannot carry (D28): empty, with a
+        # space, read back as an integer
+        INVALID[kind] = [(kind, '\xe9'), (kind, 'utf-8€'), (kind, ''), (kind, 'utf 8'), (kind, 'latin 1'),
+                         (kind, '1252'), (kind, '437')]
 
 
 _fill()
@@ -108,7 +115,7 @@ class Spec(object):
                 if r < 0.25:
                     calls.append(invalid_variants(rng, k))
                 elif r < 0.5 and k in 'CF':
-                    calls.append((k, rng.choice([None, 'utf-16', 'latin1', ''])))
+                    calls.append((k, rng.choice([None, 'utf-16', 'latin1', 'UTF_16'])))
                 else:
                     calls.append(VALID[k])
             enc = rng.choice(['default', 'utf-8', 'utf-16', 'latin1', None, 'utf-8\xe9'])
@@ -147,7 +154,7 @@ class Spec(object):
         for i, c in enumerate(calls):
             before = stream.getvalue()
             state = ([dict(f) for f in w._stack], w._prev_section)
-            valid_args = (c == VALID[c[0]]) or (c[0] in 'CF' and c[1] in (None, 'utf-16', 'latin1', ''))
+            valid_args = (c == VALID[c[0]]) or (c[0] in 'CF' and c[1] in (None, 'utf-16', 'latin1', 'UTF_16'))
             if c[0] in 'PM' and not w._cur_encoding:
                 valid_args = False     # text cannot be encoded without any effective encoding
             sid = section_of(level, c[0])
